@@ -102,7 +102,7 @@ def specGetters (v : Option Bytes) : String :=
   match v with
   | some v => " s=" ++ hexD v ++ " i=" ++ fmtInt (atoi v) ++ " b=" ++ fmtBool (toBoolean v)
               ++ " l=" ++ fmtList (toList v) ++ " d=*" ++ " e=1"
-  | none => " s=" ++ hexD dflt ++ " i=-7 b=1 l=- d=* e=0"
+  | none => " s=" ++ hexD dflt ++ " i=-7 b=1 l=- d=" ++ hex16 (2.5 : Float).toBits ++ " e=0"
 
 def specDump (m : List (Bytes × List (Bytes × Bytes))) : String :=
   "ok" ++ String.join (m.map fun (s, kvs) =>
@@ -151,12 +151,18 @@ def intOf (t : String) : Option Int :=
   | '-' :: r => (String.ofList r).toNat?.map fun n => -(n : Int)
   | _ => t.toNat?.map fun n => (n : Int)
 
+/-- the bits of a returned double; `Float.toBits` canonicalises NaNs, so a default that comes back untouched
+(theorem `unparsed_or_null_yields_defaults` / `getter_stored`: it is returned as it was passed) is printed from the bits it was given as -/
+def doubleBits (h : Option Handle) (sec key : Option Bytes) (ddef : Float) : String :=
+  let r := apiDouble h sec key ddef
+  if (apiFind h sec key).isNone && ddef.isNaN then "nan" else hex16 r.toBits
+
 def apiGetters (h : Option Handle) (sec key sdef : Option Bytes) (idef : Int) (bdef : Bool) (ddef : Float) : String :=
   "s=" ++ optHex (apiString h sec key sdef)
   ++ " i=" ++ fmtInt (apiInt h sec key idef)
   ++ " b=" ++ fmtBool (apiBoolean h sec key bdef)
   ++ " l=" ++ fmtList (apiList h sec key)
-  ++ " d=" ++ hex16 (apiDouble h sec key ddef).toBits
+  ++ " d=" ++ doubleBits h sec key ddef
   ++ " e=" ++ (if apiIsKeyExists h sec key then "1" else "0")
   ++ " n=" ++ toString (apiKeys h sec).length ++ "/" ++ toString (apiKeys h sec).eraseDups.length
 
@@ -172,7 +178,7 @@ def specApiGetters (d : Doc) (sec key sdef : Option Bytes) (idef : Int) (bdef : 
    | some v => "s=" ++ hexD v ++ " i=" ++ fmtInt (atoi v) ++ " b=" ++ fmtBool (toBoolean v)
                ++ " l=" ++ fmtList (toList v) ++ " d=*" ++ " e=1"
    | none => "s=" ++ optHex sdef ++ " i=" ++ toString idef ++ " b=" ++ (if bdef then "1" else "0")
-               ++ " l=- d=" ++ hex16 ddef.toBits ++ " e=0")
+               ++ " l=- d=" ++ (if ddef.isNaN then "nan" else hex16 ddef.toBits) ++ " e=0")
   ++ " n=*/" ++ toString n
 
 /-- replace the `d=` field by `d=*` (`dbl`) and the total of `n=total/distinct` by `*` -/
